@@ -234,6 +234,9 @@ def judge_class(chk, verdicts, recs, jobs):
         if v['known'] and all(chk.known(f) for f in v['known']):
             for f in v['known']:
                 chk.known_hit(f)
+            chk.cov.setdefault('known_finding_cases', []).append(
+                dict(cls=v['cls'], kernel=v['kernel'], dim=v['dim'],
+                     properties=sorted(v['failed'])))
             continue
         one = dict(job or {}, classes=[r['cls'].rsplit('.', 1)]
                    if '.' in r['cls'] else (job or {}).get('classes', []))
